@@ -316,15 +316,17 @@ def replay(ctx, payload):
     return 1 if code % 4 else 0
 
 
-CLAIM = {
-    'text': 'Abstract-syntax Coq model (Model/Apply.v) of apply_stub_using_libcst without confinement: libcst 1.9.0 '
-            'ApplyTypeAnnotationsVisitor + AddImportsVisitor as driven by cli.py; theorems for all sources and stubs in the '
-            'modelled fragment: apply_erase_invariant, apply_respects_existing, apply_complete (outside finding classes '
-            'kf_star_param, kf_dotted_name), walk_idempotent (annotation pass); every run compares the model and the property '
-            'predicates, evaluated in Coq, with the real output on generated modules x real stubs x overwrite x k x confinement, '
-            'plus textual idempotence, ast.parse and comment preservation.',
-    'note': 'Trusted: Coq kernel + vm_compute; harness abstraction ast -> stmt; libcst is modelled, not verified; '
-            'concrete syntax outside the model. Full-apply idempotence is tested, not proved.',
-    'technique': 'Coq model + theorems, vm_compute differential correspondence',
-    'ref': '4/C15',
-}
+CLAIM = {'note': 'Trusted: Coq kernel + vm_compute; harness abstraction ast -> stmt; libcst is modelled, not verified; '
+         'concrete syntax outside the model. Full-apply idempotence is tested, not proved.',
+ 'ref': '4/C15',
+ 'technique': 'Coq model + theorems, vm_compute differential correspondence',
+ 'text': 'Partial (libcst is modelled, not verified). Abstract-syntax model of ApplyTypeAnnotationsVisitor + '
+         'AddImportsVisitor as cli.py drives them and theorems for all overwrite flags, stubs and sources in the '
+         'modelled fragment: apply_only_inserts, apply_erase_invariant, apply_respects_existing, apply_complete '
+         '(outside kf_star_param, kf_dotted_name), add_imports_idempotent, apply_idempotent_partial2 / _closed (a '
+         'second application is the identity under the boolean conditions idem_side and reimport_safe; the '
+         'unconditional C15_full is REFUTED with two genuine re-application defects of libcst - a redefined method '
+         'in an inserted class, a forward-reference quote added on the second pass with overwrite on - in '
+         'Refuted/C15.v). Tie: generated sources x stubs rendered by the real machinery x overwrite x k x '
+         'confinement through the real apply_stub_using_libcst; model vs abstraction of the real result, '
+         'erase/respect/complete predicates and textual idempotence, verdicts in Coq.'}
